@@ -24,9 +24,9 @@ PY = "/venv/bin/python"
 WORKER = os.path.join(HERE, "worker.py")
 if HERE not in sys.path:
     sys.path.insert(0, HERE)
-REPLAYS = os.path.join(VERIF, "replays")
+REPLAYS = os.environ.get("Y0SIM_REPLAY_DIR") or os.path.join(VERIF, "replays")
 KNOWN_FILE = os.path.join(VERIF, "known_findings.json")
-EVIDENCE = os.path.join(VERIF, "evidence")
+EVIDENCE = os.environ.get("Y0SIM_EVIDENCE_DIR") or os.path.join(VERIF, "evidence")
 
 TIERS = {
     # per property: scenarios per group and waves; group = 4 workers running the same scenario ids
@@ -51,6 +51,8 @@ def spawn(args: dict, hashseed: int | None) -> subprocess.Popen:
     if hashseed is not None:
         env["PYTHONHASHSEED"] = str(hashseed)
     env["PYTHONDONTWRITEBYTECODE"] = "1"
+    if os.environ.get("Y0SIM_SRC"):  # run against a scratch copy of the sources (mutation self-tests)
+        env["PYTHONPATH"] = os.environ["Y0SIM_SRC"]
     return subprocess.Popen(
         [PY, WORKER, json.dumps(args)], env=env, stdout=subprocess.PIPE, stderr=subprocess.PIPE, text=True
     )
@@ -99,19 +101,10 @@ def match_open(known: list[dict], prop: str, sig: str) -> dict | None:
 # --------------------------------------------------------------------------- the check
 
 
-def run_check(prop: str, tier: str, seed: int, scratch: str) -> int:
-    t0 = time.time()
-    cfg = dict(TIERS[tier])
-    cfg["max_sigs"] = int(os.environ.get("Y0SIM_MAXSIGS", cfg["max_sigs"]))
-    per_group, waves = cfg[prop]
-    per_group = int(os.environ.get("Y0SIM_SCEN", per_group))
-    waves = int(os.environ.get("Y0SIM_WAVES", waves))
-    nworkers = int(os.environ.get("Y0SIM_WORKERS", min(16, os.cpu_count() or 4)))
-    nworkers = max(GROUP, nworkers - nworkers % GROUP)
+def collect(prop: str, tier: str, seed: int, scratch: str, per_group: int, waves: int, nworkers: int,
+            wall: float) -> tuple[dict, list, list, list]:
+    """Fan out the worker interpreters and gather their per-scenario lines."""
     ngroups = nworkers // GROUP
-    print(f"y0sim property={prop} tier={tier} VERIF_SEED={seed} workers={nworkers} groups={ngroups} "
-          f"scenarios/group={per_group} waves={waves}", flush=True)
-    known = load_known()
     scen: dict[int, dict[int, dict]] = {}
     stats: list[dict] = []
     viols: list[dict] = []
@@ -127,12 +120,12 @@ def run_check(prop: str, tier: str, seed: int, scratch: str) -> int:
             a = {
                 "mode": "run", "prop": prop, "seed": seed, "tier": tier, "wid": wave * nworkers + w,
                 "lo": gid * per_group, "hi": (gid + 1) * per_group, "hashseed": hs,
-                "out": os.path.join(scratch, f"w{wave}_{w}.jsonl"), "wall": cfg["wall"] / waves * 0.9,
-                "hard_timeout": int(cfg["wall"] / waves * 2 + 120),
+                "out": os.path.join(scratch, f"w{wave}_{w}.jsonl"), "wall": wall / waves * 0.9,
+                "hard_timeout": int(wall / waves * 2 + 120),
             }
             procs.append((spawn(a, hs), a))
             outs.append(a["out"])
-        wait_all(procs, cfg["wall"] / waves * 2 + 180)
+        wait_all(procs, wall / waves * 2 + 180)
         for path in outs:
             with open(path) as f:
                 for ln in f:
@@ -142,9 +135,27 @@ def run_check(prop: str, tier: str, seed: int, scratch: str) -> int:
                         for v in d.get("viol", []):
                             viols.append({"v": v, "case": d["case"], "s": d["s"], "w": d["w"]})
                         d.pop("viol", None)
+                        d.pop("case", None)
                     elif d["t"] == "stats":
                         stats.append(d)
             os.remove(path)
+    return scen, stats, viols, hashseeds
+
+
+def run_check(prop: str, tier: str, seed: int, scratch: str) -> int:
+    t0 = time.time()
+    cfg = dict(TIERS[tier])
+    cfg["max_sigs"] = int(os.environ.get("Y0SIM_MAXSIGS", cfg["max_sigs"]))
+    per_group, waves = cfg[prop]
+    per_group = int(os.environ.get("Y0SIM_SCEN", per_group))
+    waves = int(os.environ.get("Y0SIM_WAVES", waves))
+    nworkers = int(os.environ.get("Y0SIM_WORKERS", min(16, os.cpu_count() or 4)))
+    nworkers = max(GROUP, nworkers - nworkers % GROUP)
+    ngroups = nworkers // GROUP
+    print(f"y0sim property={prop} tier={tier} VERIF_SEED={seed} workers={nworkers} groups={ngroups} "
+          f"scenarios/group={per_group} waves={waves}", flush=True)
+    known = load_known()
+    scen, stats, viols, hashseeds = collect(prop, tier, seed, scratch, per_group, waves, nworkers, cfg["wall"])
     # ---- history check across workers (different hash seeds, different construction histories)
     xviol: list[dict] = []
     xcompared = 0
@@ -437,6 +448,8 @@ def main() -> int:
     ap.add_argument("--tier", default=os.environ.get("VERIF_TIER") or "quick")
     ap.add_argument("--replay")
     ap.add_argument("--quick", action="store_true")
+    ap.add_argument("--thorough", action="store_true")
+    ap.add_argument("--collect")
     ns = ap.parse_args()
     seed = int(os.environ.get("VERIF_SEED") or 0)
     scratch = tempfile.mkdtemp(prefix="y0sim-", dir=os.environ.get("TMPDIR") or "/tmp")
@@ -444,7 +457,13 @@ def main() -> int:
         if ns.prop == "selftest":
             import selftest
 
-            return selftest.run(quick=ns.quick or ns.tier == "quick", scratch=scratch)
+            return selftest.run(quick=not (ns.thorough or ns.tier == "thorough"), scratch=scratch)
+        if ns.prop == "_collect":
+            import selftest
+
+            c = json.loads(ns.collect)
+            print(json.dumps(selftest.collect_digests(c["prop"], c["per_group"], c["nworkers"], seed, scratch)))
+            return 0
         if ns.prop not in ("C02", "C11", "C14"):
             print(f"HARNESS-ERROR: unknown property {ns.prop}")
             return 2
